@@ -6,6 +6,15 @@ var verifHarnesses = map[string]func(){
 	"HarnessSmoke2": HarnessSmoke2,
 	"HarnessC01a":   HarnessC01a,
 	"HarnessC04a":   HarnessC04a,
+	"HarnessC18m":   HarnessC18m,
+	"HarnessC14a":   HarnessC14a,
+	"HarnessC14b":   HarnessC14b,
+	"HarnessC14c":   HarnessC14c,
+	"HarnessC14d":   HarnessC14d,
+	"HarnessC14d2":  HarnessC14d2,
+	"HarnessC14e":   HarnessC14e,
+	"HarnessC14f":   HarnessC14f,
+	"HarnessC14g":   HarnessC14g,
 	"HarnessC19a":   HarnessC19a,
 	"HarnessC12a":   HarnessC12a,
 	"HarnessC10a":   HarnessC10a,
